@@ -88,7 +88,10 @@ pub async fn scenario() {
 			}
 		});
 	}
-	rt::event("plan", format!("subs={n_subs} buf={buf} id_str={id_str} max_conc={max_conc} handler={with_handler} pushes={n_push} paces={paces:?} ends={ends:?} server_close={server_close:?}"));
+	// successor mode: once the server has closed a subscription it hands the same id to a new one, and the application
+	// drops its old, ended handle only then
+	let pred: Option<usize> = if rt::chance("successor", 1, 4) { server_close.iter().position(|c| *c) } else { None };
+	rt::event("plan", format!("successor_of={pred:?} subs={n_subs} buf={buf} id_str={id_str} max_conc={max_conc} handler={with_handler} pushes={n_push} paces={paces:?} ends={ends:?} server_close={server_close:?}"));
 
 	let (wire, tx, rx) = Wire::new();
 	let (ping, req_timeout) = super::draw_ping(10);
@@ -105,6 +108,12 @@ pub async fn scenario() {
 			.build_with_tokio(tx, rx),
 	);
 	let subs: Arc<Mutex<Vec<SubRec>>> = Arc::new(Mutex::new((0..n_subs).map(|i| SubRec { nonce: i as u64 + 1, server_close_planned: server_close[i as usize], ..Default::default() }).collect()));
+	let succ_nonce = n_subs as u64 + 1;
+	if pred.is_some() {
+		subs.lock().unwrap().push(SubRec { nonce: succ_nonce, ..Default::default() });
+	}
+	let (stale_tx, stale_rx) = tokio::sync::oneshot::channel::<Subscription<Value>>();
+	let mut stale_tx = Some(stale_tx);
 	let pushes: Arc<Mutex<Vec<PushRec>>> = Arc::default();
 	let peer_done = Arc::new(AtomicBool::new(false));
 	let handler_rec: Arc<Mutex<(Vec<(u64, u64)>, Option<(u64, String)>)>> = Arc::default();
@@ -146,7 +155,14 @@ pub async fn scenario() {
 		let (wire, subs, pushes, peer_done) = (wire.clone(), subs.clone(), pushes.clone(), peer_done.clone());
 		rt::spawn("peer", async move {
 			// pre-assigned subscription ids per nonce
-			let sid_of = |nonce: u64| -> Value { if nonce % 2 == 0 { json!(700 + nonce) } else { json!(format!("s{}", 700 + nonce)) } };
+			let sid_of = |nonce: u64| -> Value {
+				// the successor is dealt the id of the subscription it follows
+				let nonce = match pred {
+					Some(p) if nonce == succ_nonce => p as u64 + 1,
+					_ => nonce,
+				};
+				if nonce % 2 == 0 { json!(700 + nonce) } else { json!(format!("s{}", 700 + nonce)) }
+			};
 			let mut pending: Vec<(Value, String, Value)> = Vec::new(); // (id, method, params)
 			let mut budget = n_push;
 			let mut payload = 10_000u64;
@@ -259,6 +275,7 @@ pub async fn scenario() {
 		let (pace, end) = (paces[i], ends[i]);
 		let nonce = i as u64 + 1;
 		let peer_done = peer_done.clone();
+		let hand_over = if pred == Some(i) { stale_tx.take() } else { None };
 		hs.push(rt::spawn("consumer", async move {
 			let r: Result<Subscription<Value>, Error> = client.subscribe("sub", rpc_params![nonce], "unsub").await;
 			let mut sub = match r {
@@ -314,6 +331,10 @@ pub async fn scenario() {
 					None => {
 						let st = rt::event("stream-ended", format!("nonce={nonce} {:?}", sub.close_reason()));
 						subs.lock().unwrap()[i].ended = Some((st, format!("{:?}", sub.close_reason())));
+						if let Some(tx) = hand_over {
+							// the ended handle stays alive a little longer, in somebody else's hands
+							return tx.send(sub).err();
+						}
 						return Some(sub);
 					}
 				}
@@ -321,6 +342,49 @@ pub async fn scenario() {
 		}));
 	}
 
+	if pred.is_some() {
+		// (a weak handle: waiting for the hand-over must not keep the client alive)
+		let (client, subs) = (Arc::downgrade(&client), subs.clone());
+		let si = n_subs as usize;
+		hs.push(rt::spawn("successor", async move {
+			let Ok(stale) = stale_rx.await else { return None };
+			let Some(client) = client.upgrade() else { return Some(stale) };
+			if !matches!(stale.close_reason(), Some(jsonrpsee_core::client::SubscriptionCloseReason::ConnectionClosed)) {
+				// (lagged instead of closed by the server: not the case this mode is after)
+				return Some(stale);
+			}
+			let r: Result<Subscription<Value>, Error> = client.subscribe("sub", rpc_params![succ_nonce], "unsub").await;
+			drop(client);
+			let mut sub = match r {
+				Ok(s) => s,
+				Err(e) => {
+					rt::event("subscribe-failed", format!("nonce={succ_nonce} {e:?}"));
+					return Some(stale);
+				}
+			};
+			rt::event("subscribed", format!("nonce={succ_nonce} (successor, same id as the ended subscription)"));
+			rt::yield_n(rt::draw("stale_drop_after", 4)).await;
+			rt::event("stale-handle-dropped", "");
+			rt::probe("stale_handle_dropped_after_id_reuse");
+			drop(stale);
+			loop {
+				match sub.next().await {
+					Some(Ok(v)) => {
+						let st = rt::event("item", format!("nonce={succ_nonce} {v}"));
+						subs.lock().unwrap()[si].yields.push((st, v.as_u64().unwrap_or(0)));
+					}
+					Some(Err(e)) => {
+						rt::event("item-err", format!("{e}"));
+					}
+					None => {
+						let st = rt::event("stream-ended", format!("nonce={succ_nonce} {:?}", sub.close_reason()));
+						subs.lock().unwrap()[si].ended = Some((st, format!("{:?}", sub.close_reason())));
+						return Some(sub);
+					}
+				}
+			}
+		}));
+	}
 	// wait until the peer has pushed everything and everything is delivered and consumed
 	while !peer_done.load(Ordering::Relaxed) {
 		tokio::time::sleep(Duration::from_millis(50)).await;
